@@ -318,6 +318,36 @@ def diagnose(ctx, trace):
     return at, res.violated
 
 
+def repo_tests_stage(ctx):
+    """code -> spec on the repository's own workloads: its timeutils / fixture / excutils tests run under
+    vf.repo_recorder (every public StopWatch call and every clock reading logged from outside) and each
+    recorded trace must be a behaviour of StopWatch.tla with every invariant holding at every step."""
+    from vf import repo_traces
+    rec = repo_traces.record(ctx, ['oslo_utils/tests/test_timeutils.py', 'oslo_utils/tests/test_fixture.py',
+                                  'oslo_utils/tests/test_excutils.py'], 'stopwatch', 'sw')
+    trs = rec['stopwatch']
+    events = sum(len(t['ev']) for t in trs)
+    if len(trs) < 10 or events < 80:
+        ctx.note('repository tests under the recorder gave only %d StopWatch traces / %d events (%s)' % (
+            len(trs), events, rec['pytest_tail']))
+    if trs:
+        rejected, r = validate_traces(ctx, trs, 'repo')
+        ctx.tlc(r, 'Trace_StopWatch on traces recorded from the repository\'s own tests', counts_as_states=False)
+        for i in sorted(x for x in rejected if x >= 0)[:5]:
+            at, inv = diagnose(ctx, trs[i])
+            ev = trs[i]['ev']
+            ctx.violation({'kind': 'repo-test-trace', 'op': ev[at - 1]['op'] if at <= len(ev) else '?'},
+                          {'trace': trs[i], 'rejected_at_line': at, 'invariant': inv, 'test': trs[i].get('test')},
+                          'StopWatch trace recorded while running %s is not a behaviour of the spec: line %d %s%s' % (
+                              trs[i].get('test'), at, ev[at - 1] if at <= len(ev) else None,
+                              ' invariant ' + inv if inv else ''))
+        if -1 in rejected and not any(x >= 0 for x in rejected):
+            raise MachineryError('repo trace batch: invariant %s violated but all traces done' % r.violated)
+        ctx.cov['traces_validated_against_impl'] += len(trs) - len([x for x in rejected if x >= 0])
+    ctx.stage('repo-test-traces', tests=rec['tests'], traces=len(trs), events=events,
+              unrepresentable=rec['stopwatch_unrepresentable'], pytest=rec['pytest_tail'])
+
+
 def retry_stage(ctx, tu):
     """Spec growth: excutils.forever_retry_uncaught_exceptions = retry loop + StopWatch throttling
     (spec/Retry.tla). Every behaviour (message / extra-time sequence) of the bounded model is replayed."""
@@ -483,6 +513,7 @@ def run(ctx):
     ctx.stage('trace-validation', traces=n_tr, accepted=total)
     ctx.sample({'code_to_spec_trace_head': {'dur': first['dur'], 'ev': first['ev'][:8]}})
 
+    repo_tests_stage(ctx)
     retry_stage(ctx, tu)
     time_it_stage(ctx, tu)
     # 4. binding self-tests ---------------------------------------------------
